@@ -102,7 +102,7 @@ func (e *Engine) functionsFor(prop string) []string {
 	sort.Strings(names)
 	for _, n := range names {
 		c := e.cs.Funcs[n]
-		if !hasTag(c.Tags, prop) {
+		if !hasTag(c.Tags, prop) && tagFilter(c.Tags, prop) == "" {
 			continue
 		}
 		switch c.Kind {
@@ -138,6 +138,20 @@ func (e *Engine) functionsFor(prop string) []string {
 	}
 	sort.Strings(out)
 	return out
+}
+
+// tagFilter: a tag "Cxx:word" makes the function count for property Cxx with only those of its obligations
+// whose name contains word (a property that leans on one clause of a function specified for another property).
+func tagFilter(tags []string, prop string) string {
+	if hasTag(tags, prop) {
+		return ""
+	}
+	for _, x := range tags {
+		if strings.HasPrefix(x, prop+":") {
+			return x[len(prop)+1:]
+		}
+	}
+	return ""
 }
 
 func hasTag(tags []string, t string) bool {
@@ -213,8 +227,15 @@ func (e *Engine) cmdCheck(prop, tier, evid, known, replayDir string, replay bool
 		for u := range fc.externs {
 			externs[u] = true
 		}
+		flt := ""
+		if fc.con != nil {
+			flt = tagFilter(fc.con.Tags, prop)
+		}
 		for _, ob := range fc.obls {
 			if ob.Clause != nil && len(ob.Clause.Tags) > 0 && !hasTag(ob.Clause.Tags, prop) {
+				continue
+			}
+			if flt != "" && !strings.Contains(ob.Name, flt) {
 				continue
 			}
 			all = append(all, ob)
